@@ -40,7 +40,10 @@ use std::{
 };
 
 use serde_json::{Value, json};
-use sozu_command_lib::{config::ListenerBuilder, proto::command::Cluster};
+use sozu_command_lib::{
+    config::ListenerBuilder,
+    proto::command::{AddBackend, Cluster, LoadBalancingParams, request::RequestType},
+};
 
 use self::{
     backend::{Att, BackState},
@@ -69,6 +72,9 @@ struct Cell {
     ip: Ipv4Addr,
     front: SocketAddr,
     front_tls: SocketAddr,
+    /// same frontends behind listeners with front_timeout 9 s > back_timeout 2 s
+    front_long: SocketAddr,
+    front_tls_long: SocketAddr,
     worker: Worker,
     state: Arc<BackState>,
     _backends: Vec<BackendServer>,
@@ -79,6 +85,8 @@ impl Cell {
         let ip = lab::fresh_ip();
         let front = lab::sa(ip, 8080);
         let front_tls = lab::sa(ip, 8443);
+        let front_long = lab::sa(ip, 8081);
+        let front_tls_long = lab::sa(ip, 8444);
         let state = Arc::new(BackState::default());
         let mut backends = Vec::new();
         for port in [9000u16, 9001] {
@@ -101,17 +109,22 @@ impl Cell {
             ..WorkerOpts::default()
         };
         let mut w = Worker::start(opts);
-        let timeouts = |b: &mut ListenerBuilder| {
-            b.with_front_timeout(Some(FRONT_TIMEOUT_S))
-                .with_back_timeout(Some(BACK_TIMEOUT_S))
-                .with_connect_timeout(Some(CONNECT_TIMEOUT_S))
-                .with_request_timeout(Some(REQUEST_TIMEOUT_S));
+        let timeouts = |front_timeout: u32| {
+            move |b: &mut ListenerBuilder| {
+                b.with_front_timeout(Some(front_timeout))
+                    .with_back_timeout(Some(BACK_TIMEOUT_S))
+                    .with_connect_timeout(Some(CONNECT_TIMEOUT_S))
+                    .with_request_timeout(Some(REQUEST_TIMEOUT_S));
+            }
         };
-        let mut ok = w.add_http_listener(front, timeouts)
-            && w.add_https_listener(front_tls, |b| {
-                timeouts(b);
-                b.strict_sni_binding = Some(true);
-            });
+        let mut ok = w.add_http_listener(front, timeouts(FRONT_TIMEOUT_S)) && w.add_http_listener(front_long, timeouts(LONG_FRONT_TIMEOUT_S));
+        for (addr, ft) in [(front_tls, FRONT_TIMEOUT_S), (front_tls_long, LONG_FRONT_TIMEOUT_S)] {
+            ok = ok
+                && w.add_https_listener(addr, |b| {
+                    timeouts(ft)(b);
+                    b.strict_sni_binding = Some(true);
+                });
+        }
         let cluster = |id: &str| Cluster { cluster_id: id.into(), ..Default::default() };
         ok = ok
             && w.add_cluster(cluster("ok"))
@@ -120,23 +133,44 @@ impl Cell {
             && w.add_cluster(cluster("nobackend"))
             && w.add_cluster(cluster("refused"))
             && w.add_cluster(Cluster { max_connections_per_ip: Some(1), ..cluster("lim") });
-        for addr in [front, front_tls] {
-            let tls_side = addr == front_tls;
-            for (host, cl) in [
-                ("ok.test", Some("ok")),
-                ("okb.test", Some("ok")),
-                ("f1.test", Some("f1")),
-                ("f2.test", Some("f2")),
-                ("nobackend.test", Some("nobackend")),
-                ("refused.test", Some("refused")),
-                ("lim.test", Some("lim")),
+        for i in 0..STICKY_SLOTS {
+            ok = ok && w.add_cluster(Cluster { sticky_session: true, ..cluster(&format!("st{i}")) });
+        }
+        for addr in [front, front_tls, front_long, front_tls_long] {
+            let tls_side = addr == front_tls || addr == front_tls_long;
+            let mut routes: Vec<(&str, Option<String>)> = vec![
+                ("ok.test", Some("ok".into())),
+                ("okb.test", Some("ok".into())),
+                ("f1.test", Some("f1".into())),
+                ("f2.test", Some("f2".into())),
+                ("nobackend.test", Some("nobackend".into())),
+                ("refused.test", Some("refused".into())),
+                ("lim.test", Some("lim".into())),
                 ("deny.test", None),
-            ] {
-                let mut f = Worker::http_frontend(cl.unwrap_or(""), addr, host, "/");
+            ];
+            for (i, h) in STICKY_HOSTS.iter().enumerate() {
+                routes.push((h, Some(format!("st{i}"))));
+            }
+            for (host, cl) in routes {
+                let mut f = Worker::http_frontend(cl.as_deref().unwrap_or(""), addr, host, "/");
                 if cl.is_none() {
                     f.cluster_id = None;
                 }
                 ok = ok && if tls_side { w.add_https_frontend(f) } else { w.add_http_frontend(f) };
+            }
+        }
+        // sticky clusters: one backend nobody listens on (sticky id dead<i>), one live (live<i>)
+        for i in 0..STICKY_SLOTS {
+            for (sid, port) in [(format!("dead{i}"), 9100 + i as u16), (format!("live{i}"), 9000)] {
+                ok = ok
+                    && w.ok(RequestType::AddBackend(AddBackend {
+                        cluster_id: format!("st{i}"),
+                        backend_id: format!("st{i}-{sid}"),
+                        address: lab::sa(ip, port).into(),
+                        load_balancing_parameters: Some(LoadBalancingParams::default()),
+                        sticky_id: Some(sid.clone()),
+                        backup: None,
+                    }));
             }
         }
         ok = ok
@@ -147,12 +181,13 @@ impl Cell {
             && w.add_backend("refused", "refused-0", lab::sa(ip, 9009));
         let cert = std::fs::read_to_string("/repo/lib/assets/certificate.pem").unwrap_or_default();
         let key = std::fs::read_to_string("/repo/lib/assets/key.pem").unwrap_or_default();
-        ok = ok && w.add_certificate(front_tls, &cert, vec![], &key, CERT_NAMES.iter().map(|s| s.to_string()).collect());
+        let names: Vec<String> = CERT_NAMES.iter().chain(STICKY_HOSTS.iter()).map(|s| s.to_string()).collect();
+        ok = ok && w.add_certificate(front_tls, &cert, vec![], &key, names.clone()) && w.add_certificate(front_tls_long, &cert, vec![], &key, names);
         if !ok {
             let _ = w.stop();
             return Err("sozu refused part of the cell configuration".into());
         }
-        Ok(Cell { ip, front, front_tls, worker: w, state, _backends: backends })
+        Ok(Cell { ip, front, front_tls, front_long, front_tls_long, worker: w, state, _backends: backends })
     }
 }
 
@@ -166,8 +201,8 @@ struct Ran {
     harness_error: Option<String>,
 }
 
-fn tls_connect(cell: &Cell, src: Option<IpAddr>, sni: &str, alpn: &str) -> Result<tls::TlsClient, String> {
-    let tcp = peers::connect(cell.front_tls, src, &IoProgram::fast(), Duration::from_secs(3)).map_err(|e| format!("connect: {e}"))?;
+fn tls_connect(cell: &Cell, long: bool, src: Option<IpAddr>, sni: &str, alpn: &str) -> Result<tls::TlsClient, String> {
+    let tcp = peers::connect(if long { cell.front_tls_long } else { cell.front_tls }, src, &IoProgram::fast(), Duration::from_secs(3)).map_err(|e| format!("connect: {e}"))?;
     let (t, info) = tls::TlsClient::handshake(tcp, sni, tls::client_config(&[alpn]), Duration::from_secs(4)).map_err(|e| format!("tls: {e}"))?;
     if info.alpn.as_deref() != Some(alpn.as_bytes()) {
         return Err(format!("ALPN {alpn} not selected: {:?}", info.alpn));
@@ -179,7 +214,7 @@ fn sni_for(sc: &Scenario) -> &'static str {
     if sc.reqs.len() == 1 && sc.reqs[0].fault != Fault::WrongCert { sc.reqs[0].host } else { "ok.test" }
 }
 
-fn run_on_front(cell: &Cell, front: Front, src: Option<IpAddr>, sni: &str, reqs: &[ReqSpec]) -> Ran {
+fn run_on_front(cell: &Cell, front: Front, long: bool, src: Option<IpAddr>, sni: &str, reqs: &[ReqSpec]) -> Ran {
     let mut ran = Ran { outcomes: Vec::new(), ledger: Vec::new(), trace: Vec::new(), harness_error: None };
     fn seq<T: h2::Transport>(mut c: H1Client<T>, reqs: &[ReqSpec]) -> Vec<Outcome> {
         let mut out = Vec::new();
@@ -189,15 +224,15 @@ fn run_on_front(cell: &Cell, front: Front, src: Option<IpAddr>, sni: &str, reqs:
         out
     }
     match front {
-        Front::H1Tcp => match peers::connect(cell.front, src, &IoProgram::fast(), Duration::from_secs(3)) {
+        Front::H1Tcp => match peers::connect(if long { cell.front_long } else { cell.front }, src, &IoProgram::fast(), Duration::from_secs(3)) {
             Ok(tcp) => ran.outcomes = seq(H1Client::new(tcp), reqs),
             Err(e) => ran.harness_error = Some(format!("connect: {e}")),
         },
-        Front::H1Tls => match tls_connect(cell, src, sni, "http/1.1") {
+        Front::H1Tls => match tls_connect(cell, long, src, sni, "http/1.1") {
             Ok(t) => ran.outcomes = seq(H1Client::new(t), reqs),
             Err(e) => ran.harness_error = Some(e),
         },
-        Front::H2Tls => match tls_connect(cell, src, sni, "h2") {
+        Front::H2Tls => match tls_connect(cell, long, src, sni, "h2") {
             Ok(t) => {
                 let mut c = H2Conn::new(t, Role::Client);
                 let (o, l, t) = run_h2(&mut c, reqs);
@@ -215,7 +250,7 @@ fn run_on_front(cell: &Cell, front: Front, src: Option<IpAddr>, sni: &str, reqs:
 fn run_scenario(cell: &Cell, sc: &Scenario) -> Ran {
     let per_ip = sc.reqs.iter().any(|r| r.fault == Fault::PerIp);
     if !per_ip {
-        return run_on_front(cell, sc.front, None, sni_for(sc), &sc.reqs);
+        return run_on_front(cell, sc.front, sc.long_front, None, sni_for(sc), &sc.reqs);
     }
     // per-(cluster, source IP) limit of 1: a first connection from a private source address holds
     // the slot while the scenario's connection, from the same address, asks for the same cluster
@@ -234,7 +269,7 @@ fn run_scenario(cell: &Cell, sc: &Scenario) -> Ran {
             }
             Err(e) => return Ran { outcomes: vec![], ledger: vec![], trace: vec![], harness_error: Some(format!("holder connect: {e}")) },
         },
-        _ => match tls_connect(cell, Some(src), "lim.test", "http/1.1") {
+        _ => match tls_connect(cell, false, Some(src), "lim.test", "http/1.1") {
             Ok(t) => {
                 let mut c = H1Client::new(t);
                 let o = c.exchange(&holder_spec, false);
@@ -247,7 +282,7 @@ fn run_scenario(cell: &Cell, sc: &Scenario) -> Ran {
     if !holder_ok {
         return Ran { outcomes: vec![], ledger: vec![], trace: vec![], harness_error: Some("the slot-holding connection did not get its 200".into()) };
     }
-    run_on_front(cell, sc.front, Some(src), sni_for(sc), &sc.reqs)
+    run_on_front(cell, sc.front, sc.long_front, Some(src), sni_for(sc), &sc.reqs)
 }
 
 // ---- oracle -------------------------------------------------------------------------------------
@@ -351,12 +386,25 @@ fn judge(sc: &Scenario, i: usize, o: &Outcome, att: &Att) -> Verdict {
     }
     let backend_failure = matches!(
         r.fault,
-        Fault::Close { .. } | Fault::Stall { .. } | Fault::Garbage { .. } | Fault::H2cRst { .. } | Fault::H2cGoaway { .. } | Fault::H2cClose { .. } | Fault::H2cStall { .. } | Fault::H2cNoAck
+        Fault::Close { .. } | Fault::Stall { .. } | Fault::InterimStall { .. } | Fault::Garbage { .. } | Fault::H2cRst { .. } | Fault::H2cGoaway { .. } | Fault::H2cClose { .. } | Fault::H2cStall { .. } | Fault::H2cNoAck
     );
     let unjudged_status = matches!(r.fault, Fault::Garbage { .. } | Fault::IdleClose { .. } | Fault::NextAfterIdle | Fault::H2cRst { .. } | Fault::H2cGoaway { .. } | Fault::H2cNoAck | Fault::ClientStall { part: 2 });
     if o.end.is_abort() {
         if sibling || r.is_healthy() {
             return wrong(format!("aborted:{how}"));
+        }
+        if matches!(r.fault, Fault::InterimStall { .. }) {
+            // only an interim response was relayed; the statement names the 504, but an abort
+            // after bytes of the exchange reached the client is not judged here (the time is)
+            return Verdict::Exempt("abort_after_interim_response");
+        }
+        if matches!(r.fault, Fault::Stall { .. }) && r.progress() == Progress::MidHead && o.seen == 0 {
+            // a backend that goes silent inside its response head: nothing can have reached the
+            // client, sozu has the whole back_timeout to say so: the statement demands the 504
+            return Verdict::Violation(
+                format!("answers/no_answer/{cause}/{pair}"),
+                format!("the backend went silent inside its response head; nothing had reached the client, yet the request was dropped without an answer ({how}) instead of getting the 504"),
+            );
         }
         if backend_failure && o.seen > 0 {
             return Verdict::Held("explicit_abort_after_response_started");
@@ -418,6 +466,9 @@ fn judge(sc: &Scenario, i: usize, o: &Outcome, att: &Att) -> Verdict {
         }
         // intact 200: the backend must really have served it
         if r.is_healthy() || att.served >= 1 {
+            if matches!(r.fault, Fault::StickyDead { .. } | Fault::StickyLive { .. }) {
+                return Verdict::Held("200_from_the_live_backend_of_the_sticky_cluster");
+            }
             if !r.is_healthy() && !matches!(r.fault, Fault::IdleClose { .. } | Fault::NextAfterIdle | Fault::H2cNoAck | Fault::PerIp) {
                 return Verdict::Held("transparent_retry_200");
             }
@@ -446,7 +497,9 @@ fn judge(sc: &Scenario, i: usize, o: &Outcome, att: &Att) -> Verdict {
         Fault::PerIp => expect_one(&[429]),
         Fault::NoBackend | Fault::Refused => expect_one(&[503]),
         Fault::Close { .. } | Fault::H2cClose { .. } => family_closed(st, att).unwrap_or_else(|| wrong(got.clone())),
-        Fault::Stall { .. } | Fault::H2cStall { .. } => expect_one(&[504]),
+        Fault::Stall { .. } | Fault::H2cStall { .. } | Fault::InterimStall { .. } => expect_one(&[504]),
+        // one backend of the cluster is up: "no usable backend" (503) is not the cause
+        Fault::StickyDead { .. } | Fault::StickyLive { .. } => wrong(got.clone()),
         Fault::ClientStall { part } if *part < 2 => expect_one(&[408]),
         _ => Verdict::Exempt("other_cause_status_not_judged"),
     }
@@ -544,6 +597,13 @@ fn run_and_judge(ctx: &Ctx, cell: &Cell, cell_idx: u64, sc: &Scenario, rep: &mut
             if att.seen >= 2 {
                 rep.obs("backend_saw_a_retry", 1);
             }
+            match &r.fault {
+                Fault::Stall { k } if r.progress() == Progress::MidHead && *k >= 17 => rep.obs("class/status_line_and_partial_headers_then_silence", 1),
+                Fault::StickyDead { .. } if !matches!(o.end, End::NotSent(_) | End::Timeout) => rep.obs("class/sticky_cookie_names_refusing_backend_sibling_up", 1),
+                Fault::InterimStall { .. } if sc.long_front => rep.obs("class/interim_response_then_silence_back_timeout_below_front_timeout", 1),
+                Fault::Stall { k: 0 } if sc.long_front => rep.obs("class/control_silent_backend_on_long_front_listener", 1),
+                _ => {}
+            }
             if sc.tag == "sweep" {
                 if let Fault::Close { .. } = r.fault {
                     rep.obs(&format!("sweep/{}/{}", r.fr.name(), sc.front.name()), 1);
@@ -620,7 +680,7 @@ fn run_and_judge(ctx: &Ctx, cell: &Cell, cell_idx: u64, sc: &Scenario, rep: &mut
             };
             rep.violation(
                 &sig,
-                &format!("request still pending {} ms after it was sent (bound: configured timeouts {} ms + {} ms slack), twice, the second time alone: {why}", o.t_ms, r.bound_ms() - SLACK_MS, SLACK_MS),
+                &format!("request still pending {} ms after it was sent (bound: configured timeouts {} ms + {} ms slack{}), twice, the second time alone: {why}", o.t_ms, r.bound_ms() - SLACK_MS, SLACK_MS, if sc.long_front { "; listener with back_timeout 2 s < front_timeout 9 s, on which a backend silent from the start gets its 504 at back_timeout" } else { "" }),
                 witness(ctx, cell_idx, &again, i, o, &att, &ran2, true),
             );
         } else {
@@ -635,6 +695,7 @@ struct Gen {
     rng: Rng,
     out: Vec<Scenario>,
     round: u64,
+    sticky_next: usize,
 }
 
 const SIB_LENS: [usize; 7] = [0, 1, 8, 1000, 5000, 20_000, 40_000];
@@ -642,7 +703,7 @@ const SIB_LENS: [usize; 7] = [0, 1, 8, 1000, 5000, 20_000, 40_000];
 impl Gen {
     fn push(&mut self, front: Front, mux: Mux, reqs: Vec<ReqSpec>, faulty: usize, tag: &'static str) {
         let idx = self.out.len();
-        self.out.push(Scenario { idx, front, mux, reqs, faulty, tag });
+        self.out.push(Scenario { idx, front, mux, reqs, faulty, tag, long_front: false });
     }
     fn single(&mut self, front: Front, r: ReqSpec, tag: &'static str) {
         self.push(front, Mux::Single, vec![r], 0, tag);
@@ -953,14 +1014,66 @@ fn one_round(g: &mut Gen, quick: bool) {
     }
 }
 
+/// scenario classes added after seeded changes were missed: silence inside the response head,
+/// sticky cookie naming a refusing backend, interim response then silence
+fn extra_round(g: &mut Gen) {
+    let h1_sib: [&'static str; 3] = ["ok.test", "okb.test", "f1.test"];
+    // L. the backend writes its status line and part of its headers, then stays silent
+    let head = h1_response(1, 8, Fr::Cl, 4).1;
+    for front in Front::ALL {
+        for (fr, k) in [(Fr::Cl, 17usize), (Fr::Cl, 25), (Fr::Cl, head - 2), (Fr::Chunked, 30)] {
+            let mut r = h1f(Fault::Stall { k });
+            r.fr = fr;
+            g.single(front, r, "partial_head_stall");
+        }
+        let mut r = h1f(Fault::Stall { k: 25 });
+        r.upload = 200;
+        if front.is_h1() {
+            g.mixed(front, Mux::KeepAlive, 3, 1, r, &h1_sib, "partial_head_stall");
+        } else {
+            g.mixed(front, Mux::H2Streams, 3, 1, r, &h1_sib, "partial_head_stall");
+        }
+    }
+    // M. sticky cluster: the cookie names the backend that refuses connections, its sibling is up
+    for front in Front::ALL {
+        for (dead, upload) in [(true, 0usize), (true, 300), (false, 0)] {
+            let slot = (g.sticky_next % STICKY_SLOTS) as u8;
+            g.sticky_next += 1;
+            let fault = if dead { Fault::StickyDead { slot } } else { Fault::StickyLive { slot } };
+            let mut r = ReqSpec::new(STICKY_HOSTS[slot as usize], Back::H1, fault);
+            r.len = 300;
+            r.upload = upload;
+            g.single(front, r, "sticky");
+        }
+    }
+    // N. interim response, then silence, on the listeners whose front timeout (9 s) exceeds the
+    // back timeout (2 s); a backend silent from the start on the same listeners is the control
+    for front in Front::ALL {
+        let mut a = h1f(Fault::InterimStall { code: 103 });
+        let mut b = h1f(Fault::InterimStall { code: 100 });
+        b.upload = 200;
+        let c = h1f(Fault::Stall { k: 0 });
+        for r in [&mut a, &mut b] {
+            r.len = 8;
+        }
+        for r in [a, b, c] {
+            g.single(front, r, "interim_stall");
+            if let Some(sc) = g.out.last_mut() {
+                sc.long_front = true;
+            }
+        }
+    }
+}
+
 fn catalogue(ctx: &Ctx) -> Vec<Scenario> {
     let quick = ctx.tier == crate::common::Tier::Quick;
     let rounds = ctx.opt_u64("rounds", ctx.tier.pick(1, 20));
-    let mut g = Gen { rng: Rng::for_case(ctx.seed, 0xC02, 0), out: Vec::new(), round: 0 };
+    let mut g = Gen { rng: Rng::for_case(ctx.seed, 0xC02, 0), out: Vec::new(), round: 0, sticky_next: 0 };
     for round in 0..rounds {
         g.round = round;
         g.rng = Rng::for_case(ctx.seed, 0xC02, round);
         one_round(&mut g, quick);
+        extra_round(&mut g);
     }
     let mut out = g.out;
     // deal the scenarios to the cells in a seeded order, so the slow (timeout) ones spread out
@@ -1098,6 +1211,12 @@ pub fn run(ctx: &Ctx) -> Report {
         "held/status_matches_cause",
         "held/explicit_abort_after_response_started",
         "moment/fault_while_request_body_in_flight",
+        "class/status_line_and_partial_headers_then_silence",
+        "class/sticky_cookie_names_refusing_backend_sibling_up",
+        "class/interim_response_then_silence_back_timeout_below_front_timeout",
+        "class/control_silent_backend_on_long_front_listener",
+        "cause/sticky_backend_up",
+        "held/200_from_the_live_backend_of_the_sticky_cluster",
     ] {
         rep.require(k);
     }
